@@ -79,6 +79,8 @@ ncreset_cdflist(void)
         free(_cdfs);
         _cdfs      = NULL;
         _cdfs_size = 0;
+        /* no file is open: the high water mark must not outlive the list */
+        _ncdf = 0;
     }
     return 0;
 }
